@@ -259,3 +259,58 @@ def chain_avec(nas, masks, info_parent, expected_upa, c, sedn, x, gset=False):
         if np.any(np.isnan(cur)):
             return None
     return cur
+
+
+# ---- the nas2cam files of pyYeti's tests: float matrices sent as exact rationals -------------------
+
+
+def _matq(m):
+    from fractions import Fraction
+
+    a = np.asarray(m, dtype=float)
+    if a.ndim != 2:
+        a = a.reshape(a.shape[0] if a.ndim else 0, -1)
+
+    def q(v):
+        f = Fraction(v)
+        return str(f.numerator) if f.denominator == 1 else "%d/%d" % (f.numerator, f.denominator)
+
+    return "%d %d %s" % (a.shape[0], a.shape[1], " ".join(q(v) for v in a.ravel().tolist()))
+
+
+def mats_sections_q(nas):
+    out = []
+    for key in ("got", "goq", "gm", "pha", "phg"):
+        d = nas.get(key, {})
+        out.append(" ; ".join("%d : %s" % (int(s), _matq(m)) for s, m in d.items()))
+    return " | ".join(out)
+
+
+def match_q(impl, got, with_dof=True):
+    """numeric comparison (1e-9 of the largest entry) of a matrix reply with rational entries against the real
+    result; the shape and the output DOF exactly"""
+    from fractions import Fraction
+
+    if impl[0] != "ok":
+        return " ".join(got.split()) == impl[0]
+    if not got.startswith("ok "):
+        return False
+    body = got[3:]
+    if with_dof:
+        m, od = impl[1]
+        secs = body.split("|")
+        if len(secs) != 2 or [int(v) for v in secs[1].split()] != [int(v) for v in np.asarray(od).ravel().tolist()]:
+            return False
+        body = secs[0]
+    else:
+        m = impl[1]
+    if np.ndim(m) == 0:
+        return body.strip() == "one"
+    head, _, vals = body.partition(":")
+    shape = [int(v) for v in head.split()]
+    a = np.asarray(m, dtype=float)
+    if shape != list(a.shape):
+        return False
+    v = np.array([float(Fraction(t)) for t in vals.split()], dtype=float).reshape(a.shape)
+    scale = max(1.0, float(np.abs(v).max()) if v.size else 1.0)
+    return bool(np.all(np.abs(v - a) <= 1e-9 * scale))
